@@ -27,6 +27,7 @@ def key(name):
 def main():
     rows = []
     caught = missed = 0
+    late = [0]
     for d in sorted(os.listdir(os.path.join(HERE, 'seeded')), key=key):
         mp = os.path.join(HERE, 'seeded', d, 'meta.json')
         if not os.path.exists(mp):
@@ -40,6 +41,9 @@ def main():
             continue
         if ex == 1:
             verdict = 'caught: ' + ', '.join(rules)
+            if 'missed' in (meta.get('history') or '') or 'ANALYSIS-ERROR' in (meta.get('history') or ''):
+                verdict += ' -- NOT on first confirmation; rule written or extended afterwards'
+                late[0] += 1
             caught += 1
         else:
             verdict = '**not detected** (%s)' % (meta.get('why_missed') or 'value-level change, see section 10.3')
@@ -50,8 +54,8 @@ def main():
         rows.append('| %s | %s | %s |' % (d, first_line(meta).replace('|', '/'), verdict))
     table = ['| seed | change | verdict of `./check %s` |' % '<property>', '|---|---|---|'] + rows
     table.append('')
-    table.append('%d seeded changes filed, %d caught by the check of their own property, %d not detected.'
-                 % (caught + missed, caught, missed))
+    table.append('%d seeded changes filed, %d caught by the check of their own property (%d of them only after a rule was '
+                 'written or extended in response to the miss), %d not detected.' % (caught + missed, caught, late[0], missed))
     p = os.path.join(HERE, 'DESIGN.md')
     s = open(p).read()
     b, e = '<!-- SEED-TABLE-BEGIN -->', '<!-- SEED-TABLE-END -->'
